@@ -77,7 +77,7 @@ def parse(kind, text):
 
 def plan(tier, seed):
     rnd = random.Random(f"C14:{seed}"); jobs = []
-    n = 60 if tier == "quick" else 800
+    n = 150 if tier == "quick" else 1500
     for k in range(n):
         cid = rnd.choice(sorted(TRIG)); src, pkg = TRIG[cid]
         kinds = rnd.sample(sorted(GEN), rnd.choice((1, 1, 1, 2, 0)))
@@ -89,6 +89,19 @@ def plan(tier, seed):
             except Exception: continue
             mf[kind] = text; files[kind] = b64(text.encode())
         jobs.append({"id": f"m{k}", "cid": cid, "pkg": pkg, "presence": presence, "manifests": mf, "files": files, "argv": ["{proj}", "--output", "{out}", "--codemod-include", cid], "repeat": 2, "monitors": {"snap": False}})
+    # several dependency-adding codemods in ONE run: the same package needed twice (url-sandbox and sandbox-process-creation both need `security`), different packages
+    MULTI = [(["pixee:python/url-sandbox", "pixee:python/sandbox-process-creation"], ["security"], "import requests\nimport subprocess\nfrom flask import request\ndef v():\n    requests.get(request.args['u'])\n    subprocess.run(request.args['c'])\n"),
+             (["pixee:python/sandbox-process-creation", "pixee:python/url-sandbox"], ["security"], "import requests\nimport subprocess\nfrom flask import request\ndef v():\n    requests.get(request.args['u'])\n    subprocess.run(request.args['c'])\n"),
+             (["pixee:python/use-defusedxml", "pixee:python/harden-pickle-load"], ["defusedxml", "fickling"], "import xml.sax\nimport pickle\nxml.sax.parse('f')\npickle.load(open('f', 'rb'))\n"),
+             (["pixee:python/harden-pickle-load", "pixee:python/use-defusedxml", "pixee:python/flask-enable-csrf-protection"], ["defusedxml", "fickling", "flask-wtf"], "import xml.sax\nimport pickle\nfrom flask import Flask\napp = Flask(__name__)\nxml.sax.parse('f')\npickle.load(open('f', 'rb'))\n")]
+    for k in range(8 if tier == "quick" else 80):
+        cids, pkgs, src = MULTI[k % len(MULTI)]
+        kind = sorted(GEN)[(k // len(MULTI)) % 4]
+        text = GEN[kind](rnd, None)
+        try: parse(kind, text)
+        except Exception: continue
+        jobs.append({"id": f"multi{k}", "cid": ",".join(cids), "pkg": pkgs[0], "pkgs": pkgs, "presence": None, "manifests": {kind: text}, "files": {"app.py": b64(src.encode()), kind: b64(text.encode())},
+                     "argv": ["{proj}", "--output", "{out}", "--codemod-include", ",".join(cids)], "repeat": 2, "monitors": {"snap": False}})
     return jobs
 
 def judge(job, res):
@@ -112,10 +125,12 @@ def judge(job, res):
         lost = nb - na
         if lost: v.append(Violation("C14", f"requirement-lost/{kind}", f"lost {dict(lost)}", dict(w, after=after)))
         if oa != ob: v.append(Violation("C14", f"unrelated-content-changed/{kind}", "non-dependency content differs", dict(w, after=after)))
-        if na[pkg] > 1: v.append(Violation("C14", f"duplicate-requirement/{kind}" if nb[pkg] == 0 else "name-not-canonicalised", f"{pkg} declared {na[pkg]} times", dict(w, after=after)))
+        for pk in [canonicalize_name(x) for x in job.get("pkgs", [job["pkg"]])]:
+            if na[pk] > 1: v.append(Violation("C14", (f"duplicate-requirement/{kind}" + ("/several-codemods-one-run" if "pkgs" in job else "")) if nb[pk] == 0 else "name-not-canonicalised", f"{pk} declared {na[pk]} times", dict(w, after=after)))
         if nb[pkg] >= 1 and after != before: 
             if na[pkg] <= 1: v.append(Violation("C14", f"touched-although-declared/{kind}", "manifest modified although package already declared", dict(w, after=after)))
         extra = (na - nb); extra.pop(pkg, None)
+        for pk in job.get("pkgs", []): extra.pop(canonicalize_name(pk), None)
         extra = {k: n for k, n in extra.items() if not k.startswith("types-")}
         if extra: v.append(Violation("C14", f"unexpected-requirements-added/{kind}", str(extra), dict(w, after=after)))
     if len(updated) > 1: v.append(Violation("C14", "several-manifests-updated", str(updated), w))
